@@ -149,6 +149,7 @@ def op_bf_seq(a):
     results: List[Any] = []
     views: List[Any] = []
     for i, st in enumerate(a["steps"]):
+        hash(f)  # observing the hash between assignments must not freeze it (a stale cache would show below)
         try:
             if "int" in st:
                 f.value = st["int"]
@@ -162,6 +163,12 @@ def op_bf_seq(a):
                 raise
             results.append(cat)
         views.append(_views(f))
+        # equality / hashing stay in step with the views after every assignment
+        g = UnsignedByteField(int(f), len(f))
+        if not (f == g) or not (g == f):
+            raise SelfCheckFailure(f"after step {i}: field is not == to a fresh field with the same value and width")
+        if hash(f) != hash(g) or {g: 1}.get(f) != 1:
+            raise SelfCheckFailure(f"after step {i}: field equal to a fresh field hashes differently (value {int(f)}, width {len(f)})")
     return {"init": init, "results": results, "views": views}
 
 
